@@ -98,6 +98,7 @@ SweepLabels(e) ==
     \cup Diff("CAT.dir_topics", SetOf(ob.dT), { <<t[1], t[2]>> : t \in T' })
     \cup Diff("CAT.dir_partitions", SetOf(ob.dP), { <<c[1], c[2], c[3]>> : c \in Cnt' })
     \cup (IF Len(ob.incons) > 0 THEN {<<"CAT.lookup", ob.incons[1]>>} ELSE {})
+    \cup (IF ob.journal_hits # 0 THEN {<<"C19.journal_plaintext", ob.journal_hits>>} ELSE {})
 
 Reset(e) ==
     /\ S' = {} /\ T' = {} /\ G' = {} /\ Cnt' = {} /\ Mem' = {}
